@@ -184,7 +184,7 @@ fn judge(
             rep.violation(Violation {
                 property: "C09".into(),
                 kind: "budget-exceeded".into(),
-                site: format!("{}/{}/{}", cfg.short(), op, pc.class),
+                site: format!("{}/{}/{}/{}", cfg.short(), op, pc.class, super::c04::text_shape(&g.text)),
                 what: format!(
                     "{} {} does not return within {} ticks on `{}` (largest returning call so far: see evidence)",
                     cfg.name(), op, budget, g.text
